@@ -9,9 +9,12 @@ EXPLANATION = (
     "bit_length; NumpyIO cursor algebra; read_rle and read_bitpacked1 by inductive loop invariants (all counts, all capacities); "
     "read_bitpacked by control-state closure per width 0..32 x item size: every reachable (left,right) state keeps 'accumulator == "
     "stream bits', every emitted value == bits [w*k, w*k+w), cursors exact, output prefix == spec and frame. Widths 25..32, width "
-    "0 / zero groups (cursor) are refuted = known findings (.pyx cannot be rebuilt here). Not yet under contract (bounded layer "
-    "only, labelled bounded): read_rle_bit_packed_hybrid, delta_binary_unpack / delta_read_bitpacked, encode_bitpacked / "
-    "encode_rle_bp, write_bitpacked1, speedups byte arrays, numpy-level boolean packing.")
+    "0 / zero groups (cursor) are refuted = known findings (.pyx cannot be rebuilt here). delta_read_bitpacked by the same closure for widths "
+    "1..64. The two decoder DRIVERS by step contracts with the kernels as callee contracts (cuts): read_rle_bit_packed_hybrid (length "
+    "prefix, loop test, dispatch on the header's low bit, frame, variant) and delta_binary_unpack (header, block header, miniblock "
+    "dispatch + rewind, one arbitrary value slot: stored value, running sum, count, return condition, capacity invariant, frame); the "
+    "induction from step lemmas to whole streams is argued. Encoders / speedups byte arrays: see the obligation table when their "
+    "contract modules are present, else bounded layer only; numpy-level boolean packing is numpy (assumed).")
 
 
 def p_kernels(ctx):
